@@ -18,6 +18,9 @@ _sg_cache = {}
 
 def supergraph(F, entry, opaque=None, tag='', max_depth=8):
     k = (id(F), entry, tag, max_depth)
+    if opaque is loop_opaque:
+        # "contains a loop" is a property of the callee including its private helpers (a loop may be extracted)
+        opaque = lambda t, b: has_loop_deep(F, b)
     if k not in _sg_cache:
         if len(_sg_cache) > 64:
             _sg_cache.clear()
@@ -105,6 +108,33 @@ def has_loop(b):
             st.pop()
     _loop_cache[k] = found
     return found
+
+
+_deep_cache = {}
+
+
+def has_loop_deep(F, b, _stack=None):
+    """The function or any crate-local function it calls (transitively) contains a loop."""
+    k = (id(F), b['id'])
+    if k in _deep_cache:
+        return _deep_cache[k]
+    _stack = _stack or set()
+    if b['id'] in _stack:
+        return False
+    if has_loop(b):
+        _deep_cache[k] = True
+        return True
+    _stack = _stack | {b['id']}
+    r = False
+    for bl in b['blocks']:
+        t = bl['term']
+        if t['k'] == 'call':
+            cb = F.bodies.get(t.get('resolved') or t.get('fn'))
+            if cb is not None and has_loop_deep(F, cb, _stack):
+                r = True
+                break
+    _deep_cache[k] = r
+    return r
 
 
 def loop_opaque(t, b):
